@@ -298,6 +298,15 @@ func (m *Mux) encError(w http.ResponseWriter, r *http.Request, err error) {
 		w.WriteHeader(HTTPStatusCode(s.Code()))
 
 		codeStr := strings.ToLower(code.Code_name[int32(s.Code())])
+		switch s.Code() {
+		case codes.Canceled:
+			codeStr = "canceled" // Twirp spelling
+		case codes.DataLoss:
+			codeStr = "dataloss" // Twirp spelling
+		}
+		if codeStr == "" {
+			codeStr = "unknown"
+		}
 
 		terr := &twirpError{
 			Code:    codeStr,
